@@ -81,6 +81,9 @@ Pairs ==
   \cup { <<AnyC("list"), e>> : e \in ListE(D) } \cup { <<AnyC("set"), e>> : e \in ListE(1) } \cup { <<AnyC("map"), e>> : e \in MapE(D) }
   \cup { <<AnyC("object"), e>> : e \in ObjE(IF D > 1 THEN 1 ELSE D) } \cup { <<AnyC("tuple"), e>> : e \in TupE(1) }
   \cup { <<AnyC("dynamic"), e>> : e \in StrE(1) \cup ListE(1) \cup ObjE(1) }
+  \* a map whose elements are not strings: static and computed keys side by side
+  \cup { <<AnyC("maplist"), Obj(<<It(IdK("a"), List(<<Lit("string", "c"), e>>)), It(LocS, List(<<Lit("string", "d"), Lit("string", "e")>>))>>)>> : e \in {LocS, Unk, Lit("string", "x")} }
+  \cup { <<AnyC("maplist"), Obj(<<It(Lit("string", "q"), List(<<LocS>>)), It(StrK("b c"), List(<<>>))>>)>> }
   \cup { <<CRef, e>> : e \in StrE(1) }
   \cup { <<[k |-> "list", e |-> CRef], e>> : e \in {List(<<LocS, Lit("string", "x"), Unk>>), List(<<LocS, LocS>>), LocL, List(<<>>)} }
   \cup { <<[k |-> "set", e |-> [k |-> "oneOf", cs |-> <<CRef, CRef>>]], e>> : e \in {List(<<LocS, Unk, LocS>>), List(<<SelfX, LocN>>)} }
